@@ -48,6 +48,8 @@ Proof. exact (read_fixed_partial w data). Qed.
 Theorem C12_dims_loop_is_the_models_test nv dims : 0 <= nv ->
   dims_accept nv dims = negb (existsb (fun x => x <? 1) dims) && (nv =? zprod dims).
 Proof. exact (dims_accept_exact nv dims). Qed.
+Theorem C12_model_is_the_loop tp : tensor_from_proto tp = tensor_from_proto_loop tp.
+Proof. exact (tensor_from_proto_is_loop tp). Qed.
 Theorem C12_dims_loop_cannot_overflow nv dims : 0 <= nv -> Forall (fun p => 1 <= p <= nv) (dims_trace nv 1 dims).
 Proof. intro H. exact (dims_trace_bounded nv 1 dims ltac:(lia) H). Qed.
 (* as first written (product, then one comparison) the wrapped product of [2^32; 2^32] is 0 = an empty payload *)
